@@ -402,6 +402,7 @@ Inductive sem_fn : forall A : Type, M A -> Prop :=
 | sf_compare_val n a b : sem_fn _ (compare_val n a b)
 | sf_manifest n v : sem_fn _ (manifest n v)
 | sf_ret A (a : A) : sem_fn _ (ret a)
+| sf_fail A k : sem_fn A (fail k)
 | sf_bind A B (m : M A) (f : A -> M B) :
     sem_fn A m -> (forall a, sem_fn B (f a)) -> sem_fn B (bind m f).
 
@@ -421,6 +422,7 @@ Proof.
          unfold ext_good in *; auto; fail).
   - apply manifest_ext.
   - apply ext_m_ret.
+  - apply ext_m_fail.
   - apply ext_m_bind; assumption.
 Qed.
 
